@@ -84,7 +84,7 @@ func Make(format string, r *rand.Rand) Sample {
 		s.Desc = "odt from logical.Gen (tame profile, styled paragraphs)"
 	case "xlsx":
 		wb := &ooxml.XWorkbook{Styles: true, DocProps: true, Title: "sample"}
-		for i := 0; i < 1+r.Intn(3); i++ {
+		for i := 0; i < 2+r.Intn(2); i++ { // at least two sheets: damage to one part has a later part to shift
 			sh := ooxml.XSheet{Name: fmt.Sprintf("Sheet%d", i+1), Part: fmt.Sprintf("xl/worksheets/sheet%d.xml", i+1), RID: fmt.Sprintf("rId%d", i+1), SheetID: i + 1, Dimension: true}
 			for a := 0; a < 2+r.Intn(3); a++ {
 				for b := 0; b < 2+r.Intn(3); b++ {
@@ -112,7 +112,7 @@ func Make(format string, r *rand.Rand) Sample {
 		s.Desc = "xlsx workbook"
 	case "pptx":
 		dk := &ooxml.PDeck{DocProps: true, Title: "sample", MasterText: "master text"}
-		for i := 0; i < 1+r.Intn(3); i++ {
+		for i := 0; i < 2+r.Intn(2); i++ { // at least two slides, for the same reason
 			t1, t2 := tk.Next(), tk.Next()
 			dk.Slides = append(dk.Slides, ooxml.PSlide{Part: fmt.Sprintf("ppt/slides/slide%d.xml", i+1), RID: fmt.Sprintf("rId%d", 10+i), SlideID: 256 + i, Title: t1 + " title", Paras: []string{t2 + " body text"}})
 			s.Tokens = append(s.Tokens, t1, t2)
